@@ -321,6 +321,7 @@ func c10Run(c *verifeng.Chooser, depth, nreq int) {
 	var lives []*live
 	used := map[int]bool{}
 	stopped := false
+	afterStop := false
 	var stopTask *verifbubble.Task
 
 	// judge newly finished callers against the reference, using the tip of
@@ -486,6 +487,37 @@ func c10Run(c *verifeng.Chooser, depth, nreq int) {
 				stopped = true
 				stopTask = verifbubble.Go("Stop", func() (any, error) { return nil, scanner.Stop() })
 			}})
+		}
+		if stopped && stopTask != nil && stopTask.Done() && !afterStop {
+			// a request made after Stop has returned is refused (or its
+			// caller released) at once, whatever the scanner was doing
+			// when it was stopped
+			for i, r := range c10pool {
+				if used[i] {
+					continue
+				}
+				i, r := i, r
+				menu = append(menu, ev{"GetUtxo(" + r.name + ") after Stop has returned", func() {
+					afterStop = true
+					used[i] = true
+					tk := verifbubble.Go("GetUtxo("+r.name+") after Stop", func() (any, error) {
+						req, err := scanner.Enqueue(&InputWithScript{OutPoint: ops[r.op], PkScript: c10script(r.script)}, r.birth, nil)
+						if err != nil {
+							return nil, err
+						}
+						return req.Result(nil)
+					})
+					verifbubble.Wait()
+					time.Sleep(time.Second)
+					verifbubble.Wait()
+					if !tk.Done() {
+						c.Fail("C10", "C10:caller-blocked-after-stop", "Stop had returned; a GetUtxo request made afterwards neither fails nor is answered: its caller is blocked for good")
+					} else if tk.Err == nil {
+						c.Fail("C10", "C10:served-after-stop", "Stop had returned, yet a GetUtxo request made afterwards was answered without an error")
+					}
+				}})
+				break
+			}
 		}
 		if len(menu) == 0 {
 			break
